@@ -10,10 +10,11 @@ from ..index import dotted, walk_local
 EXPLANATION = ("C02: deque-end agreement between enter (append right) and exit (pop right) for Doist and DoDoer; "
                "DoDoer.do reaches its child-closing exit() on every outcome; exception-safe entering into a fresh "
                "local deque (extend); remove() closes the removed deeds before returning; rotation hazard "
-               "(marker left in the deque by a raising recur vs. exit() merely skipping it).")
+               "(marker left in the deque by a raising recur vs. exit() merely skipping it); close order source: the deque is not in enter "
+               "order after a mid-recur extend or while the marker is in it, so exit() and remove() must order the deeds by the "
+               "position of their doer in self.doers (kept in enter order) before closing from the right.")
 ASSUMPTIONS = ["calls may raise Exception; dog.send/next additionally StopIteration",
-               "correctness of a reordering in exit() is not decided, only its presence",
-               "order in which a mid-cycle remove closes doers on both sides of the marker is not decided"]
+               "self.doers is in enter order (insertion order; C06 decides the writers of .doers)"]
 M = sched.MOD
 
 
@@ -74,6 +75,8 @@ def check(run):
         for n in walk_local(f.node):
             if isinstance(n, ast.Call) and is_self_call(n, "exit"):
                 v = kwarg(n, "deeds") or (n.args[0] if n.args else None)
+                while isinstance(v, ast.Call) and dotted(v.func) in ("deque", "list", "tuple") and len(v.args) == 1:
+                    v = v.args[0]       # a copy of the removed deeds is still the removed deeds
                 args.add(dotted(v) if v is not None else None)
         ok = bool(moved) and args == moved
         run.ob("C02.R4", "%s:exit-gets-removed-deeds" % f.fq, ok, run.site(f),
@@ -88,6 +91,11 @@ def check(run):
         if note:
             run.note(note)
     run.floor("C02.R5", 2)
+    # R6 close order comes from .doers (enter order), not from the deque
+    for cls in (doist, dodoer):
+        for name, ok, site, what in sched.close_order_facts(run, cls):
+            run.ob("C02.R6", "%s:%s:%s" % (M, cls.name, name), ok, site, what)
+    run.floor("C02.R6", 4)
 
 
 MUTANTS = [
@@ -98,7 +106,12 @@ MUTANTS = [
     Mutant("dodoer-remove-exit-wrong-deque", M, "DoDoer.remove", "        self.exit(deeds=rdeeds)", "        self.exit(deeds=deque())", {"C02.R4"}),
     Mutant("reintroduce-enter-no-unwind", M, "Doist.enter", "                self.exit(deeds=deeds)\n", "                pass\n", {"C02.R3"}, canary=True),
     Mutant("reintroduce-dodoer-enter-no-unwind", M, "DoDoer.enter", "                self.exit(deeds=deeds)\n", "                pass\n", {"C02.R3"}),
-    Mutant("reintroduce-exit-no-rotate", M, "Doist.exit", "            deeds.rotate(-(deeds.index(marker) + 1))\n", "            pass\n", {"C02.R5"}, canary=True),
-    Mutant("reintroduce-dodoer-exit-no-rotate", M, "DoDoer.exit", "            deeds.rotate(-(deeds.index(marker) + 1))\n", "            pass\n", {"C02.R5"}),
+    Mutant("silent-exit-no-rotate", M, "Doist.exit", "            deeds.rotate(-(deeds.index(marker) + 1))\n", "            pass\n", silent=True),
+    Mutant("reintroduce-exit-deque-order", M, "Doist.exit", "        deeds.clear()\n        deeds.extend(ordered)\n", "", {"C02.R6"}, canary=True),
+    Mutant("reintroduce-exit-deque-order-no-rotate", M, "Doist.exit", "            deeds.rotate(-(deeds.index(marker) + 1))\n\n        # deeds extended during a recur sit before deeds not yet run in that recur\n        # so restore enter order which is the order of .doers\n        order = {id(doer): i for i, doer in enumerate(self.doers)}\n        ordered = sorted(deeds, key=lambda deed: order.get(id(deed[2]), -1))\n        deeds.clear()\n        deeds.extend(ordered)\n", "            pass\n", {"C02.R5", "C02.R6"}),
+    Mutant("reintroduce-remove-deque-order", M, "DoDoer.remove", "        rdeeds = deque(sorted(rdeeds, key=lambda deed: order[id(deed[2])]))\n", "", {"C02.R6"}),
+    Mutant("silent-remove-exit-copy", M, "Doist.remove", "        self.exit(deeds=rdeeds)", "        self.exit(deeds=deque(rdeeds))", silent=True),
+    Mutant("silent-dodoer-exit-no-rotate", M, "DoDoer.exit", "            deeds.rotate(-(deeds.index(marker) + 1))\n", "            pass\n", silent=True),
+    Mutant("reintroduce-dodoer-exit-deque-order", M, "DoDoer.exit", "        deeds.clear()\n        deeds.extend(ordered)\n", "", {"C02.R6"}),
     Mutant("silent-starred-unpack", M, "Doist.exit", "dog, retime, doer = deeds.pop()", "dog, *rest = deeds.pop(); doer = rest[-1]", silent=True),
 ]
